@@ -179,6 +179,21 @@ def schedule_dependent_step(impl_frames, model_frames):
     return a[0] == b[0] and a[1] == b[1] and a[2] == b[2] and len(a[2]) >= 2
 
 
+def _equal_up_to_ticker(a, b):
+    """Publisher confirms are written by the channel's confirm ticker, a goroutine of its own: where its basic.ack frames
+    fall among the replies of the requests pipelined after the publish is the scheduler's choice and changes nothing
+    else.  Two frame lists are the same observation when they agree after the acks are taken out and the acks of each
+    channel agree in order."""
+    def split(fr):
+        rest = [f for f in fr if ":basic.ack(" not in f]
+        acks = {}
+        for f in fr:
+            if ":basic.ack(" in f:
+                acks.setdefault(f.split(":", 1)[0], []).append(f)
+        return rest, acks
+    return split(a) == split(b)
+
+
 def first_diff(impl_steps, model_steps, compare_snap=True):
     """Index of the first step where frames (and snapshot) differ, with a description; None if equal.
     A description starting with "schedule:" marks a step whose order of deliveries is the scheduler's choice."""
@@ -186,7 +201,7 @@ def first_diff(impl_steps, model_steps, compare_snap=True):
         if i >= len(model_steps):
             return i, "model has fewer steps"
         mf, ms = model_steps[i]
-        if list(st["frames"]) != list(mf):
+        if list(st["frames"]) != list(mf) and not _equal_up_to_ticker(list(st["frames"]), list(mf)):
             if schedule_dependent_step(list(st["frames"]), list(mf)):
                 return i, "schedule: several consumers woken at once, delivery order differs: impl=%s model=%s" % (st["frames"], mf)
             return i, "frames differ: impl=%s model=%s" % (st["frames"], mf)
